@@ -325,24 +325,31 @@ def oracle(case, canon, res, obj, L, detail):
     s = case["sched"]
     na = case["num_anneals"]
     matrix = case["kind"] in MATRIX
-    # `variables`: labels that ever carried a nonzero coefficient (what the bookkeeping keeps after a cancellation);
-    # `cur`: labels of the terms present now.  They differ only after cancellations (stale bookkeeping is C14's
-    # subject): there the state's domain may be anything in between; otherwise it is exact.
+    # `variables`: labels that ever carried a nonzero coefficient in the squashed input (what `variables` of a model
+    # object keeps after a cancellation); `cur`: labels of the terms present now.  The exact domain:
+    #   spin function, Matrix input        0..max_index of the object (its `variables`, cancelled ones included)
+    #   spin function, labelled / dict     `variables`
+    #   boolean function                   the conversion builds a fresh spin model from the terms present now:
+    #                                      Matrix input -> 0..max(cur); labelled input -> cur; dict -> `variables`
+    # Only for a plain dict whose raw keys collide after squashing (e.g. (0,1) and (1,0)) the property text does not
+    # say whether a cancelled label is a variable: there anything between `cur` and `variables` is accepted.
     cur = {i for k in poly for i in k}
     if matrix:
-        mi = obj.max_index
-        domain = set(range(mi + 1)) if mi is not None else set()
-        lo = set(range(max(cur) + 1)) if cur else set()
-    else:
+        if spin:
+            mi = obj.max_index
+            domain = set(range(mi + 1)) if mi is not None else set()
+        else:
+            domain = set(range(max(cur) + 1)) if cur else set()
+    elif spin or case["kind"] == "dict":
         domain = set(variables)
-        lo = cur
+    else:
+        domain = set(cur)
+    collide = case["kind"] == "dict" and len({tuple(squashed(k, spin)) for k, _ in case["ops"]}) < len(case["ops"])
     def domain_ok(st):
         st = set(st)
         if st == domain:
             return True
-        if matrix:
-            return lo <= st <= domain and st == set(range(len(st)))
-        return lo <= st <= domain
+        return collide and cur <= st <= domain
     bad_sched = s["t"] == "named" and (s["name"] not in ("linear", "geometric") or
                                         ("range" in s and (s["range"][0] < s["range"][1] or
                                                            (s["name"] == "geometric" and 0.0 in s["range"]))))
@@ -380,8 +387,9 @@ def oracle(case, canon, res, obj, L, detail):
         st = {L.ident(k): v for k, v in r.state.items()}
         if not domain_ok(st):
             sig = "C11:D1-repeated-label-key" if dup else "C11:domain"
-            if case["fn"] == "pubo" and case["kind"] == "QUBOMatrix" and cur <= set(st) <= set(variables):
-                # pubo_to_puso turns a QUBOMatrix into a *labelled* PUSO: the state covers the variables only
+            if case["fn"] == "pubo" and case["kind"] == "QUBOMatrix" and not dup:
+                # (repaired) pubo_to_puso used to turn a QUBOMatrix into a *labelled* PUSO, whose states cover the
+                # variables only instead of every index 0..max_index
                 sig = "C11:matrix-domain-pubo-QUBOMatrix"
             return (sig, "result %d: state domain %s, the model's variables are %s" % (idx, sorted(st), sorted(domain)))
         allowed = (1, -1) if spin else (0, 1)
@@ -558,6 +566,22 @@ def fixed_cases():
         for name in ("linear", "geometric"):
             out.append(dict(base, fn=fn, kind=kind, ops=ops, shape="cancelled",
                             sched={"t": "named", "name": name, "duration": 5}))
+    # regression inputs of the two findings repaired last (they must pass; a relapse is reported under the old name)
+    # C11:matrix-domain-pubo-QUBOMatrix: states over 0..max_index, also with gaps and after a cancellation
+    out.append(dict(base, fn="pubo", kind="QUBOMatrix", ops=[[[4], "1"]], shape="isolated"))
+    out.append(dict(base, fn="pubo", kind="QUBOMatrix", ops=[[[1, 3], "2"], [[3], "-1"], [[], "1/2"]], shape="isolated",
+                    init=[[0, 1], [1, 0], [2, 1], [3, 1]]))
+    out.append(dict(base, fn="pubo", kind="QUBOMatrix", shape="cancelled",
+                    ops=[[[0], "-5"], [[3], "-1"], [[], "-1/2"], [[2, 3], "3/2"], [[0], "5"], [[], "1/2"]]))
+    out.append(dict(base, fn="qubo", kind="QUBOMatrix", ops=[[[4], "1"]], shape="isolated"))
+    # C11:D1-repeated-label-key: a key repeating a label no longer registers a non-variable in `mapping`
+    out.append(dict(base, fn="puso", kind="QUSO", labels="mixed", shape="dup", num_anneals=1,
+                    ops=[[[], "-1/2"], [[2, 4], "1/4"], [[7, 7], "2"]], init=[[2, -1], [4, -1], [7, -1]]))
+    out.append(dict(base, fn="quso", kind="dict", labels="str", shape="dup", ops=[[[0, 0], "3"], [[1], "1"]]))
+    out.append(dict(base, fn="puso", kind="dict", labels="str", shape="dup", ops=[[[0, 0, 1, 2, 3], "1"]]))
+    out.append(dict(base, fn="puso", kind="PUSO", labels="tuple", shape="dup", ops=[[[0, 0, 1, 2, 3], "1"], [[0], "2"]]))
+    out.append(dict(base, fn="pubo", kind="dict", labels="int", shape="dup", ops=[[[0, 0, 1], "1"], [[1, 1], "-1/2"]]))
+    out.append(dict(base, fn="qubo", kind="QUBO", labels="str", shape="dup", ops=[[[0, 0], "1"], [[0, 1], "2"]]))
     return out
 
 def check(ctx):
